@@ -433,6 +433,8 @@ class Rig:
     def deliver(self, i):
         self.tx = []
         octets, at, d, h = self.net.pop(i)
+        if h["k"] == "CA":
+            self.ca_seen = True          # (the first piece of the answer has reached the requester: held copies are released)
         dst, src = (self.s, self.c) if d == "cs" else (self.c, self.s)
         exc = self.guarded(dst.receive, octets, src.addr)
         self.log("Deliver", i + 1, exc)
@@ -446,6 +448,8 @@ class Rig:
         self.tx = []
         f = self.net[i]
         self.net.insert(i + 1, [f[0], f[1], f[2], f[3]])
+        if getattr(self, "hold_dups", False):
+            self.held.add(id(self.net[i + 1]))
         self.log("Dup", i + 1)
 
     def delay(self, i):
@@ -513,6 +517,9 @@ class Rig:
         silence_from: every frame with number >= this is dropped."""
         faults = dict(faults or {})
         self.applied = {}
+        # order 'late-dup': the copy a duplication makes is a straggler -- it is delivered right after the first segment of
+        # the answer has reached the requester (or when nothing else is left to do at that instant)
+        self.hold_dups, self.held, self.ca_seen = order == "late-dup", set(), False
         self.submit()
         # wall-clock budget for the whole run (a transfer that sends the same segments for ever gets slower with every
         # step): generous: a step normally takes 1..3 ms, 600 segments go through in about a second
@@ -537,6 +544,9 @@ class Rig:
                 continue
             if order == "fifo":
                 pick = steps[0]
+            elif order == "late-dup":
+                held = [x for x in steps if x[0] == "frame" and id(self.net[x[1]]) in self.held]
+                pick = ((held if self.ca_seen else [x for x in steps if x not in held]) or steps)[0]
             elif order == "timers":
                 pick = ([s for s in steps if s[0] == "timer"] or steps)[0]
             else:
